@@ -76,6 +76,16 @@ struct Runner<'a> {
     vacant_pops_seen: u64,
 }
 
+/// Relative selector: `sel < 0x8000` counts from the oldest candidate, `sel >= 0x8000` from the
+/// newest (both modulo the number of candidates).
+fn pick(sel: u16, len: usize) -> usize {
+    if sel < 0x8000 {
+        sel as usize % len
+    } else {
+        len - 1 - ((sel - 0x8000) as usize % len)
+    }
+}
+
 fn held_now() -> usize {
     with(|w| w.held_count())
 }
@@ -1171,7 +1181,7 @@ impl<'a> Runner<'a> {
         if cands.is_empty() {
             return;
         }
-        let (is_stored, ix) = cands[sel as usize % cands.len()];
+        let (is_stored, ix) = cands[pick(sel, cands.len())];
         // take the waker out
         let (child, wk) = with(|w| {
             if is_stored {
@@ -1248,7 +1258,7 @@ impl<'a> Runner<'a> {
         if cands.is_empty() {
             return;
         }
-        let k = cands[sel as usize % cands.len()];
+        let k = cands[pick(sel, cands.len())];
         let (h, gone) = with(|w| {
             let h = w.wakers.remove(k);
             w.faults[if w.subject_gone { FA_AFTER_DROP } else { FA_STALE }] += 1;
@@ -1311,7 +1321,7 @@ impl<'a> Runner<'a> {
         if n == 0 {
             return;
         }
-        let k = sel as usize % n;
+        let k = pick(sel, n);
         // locate and clone without taking it out (clone runs the crate's vtable)
         let r = catch_unwind(AssertUnwindSafe(|| {
             with(|w| {
@@ -1346,7 +1356,7 @@ impl<'a> Runner<'a> {
             if w.wakers.is_empty() {
                 None
             } else {
-                let k = sel as usize % w.wakers.len();
+                let k = pick(sel, w.wakers.len());
                 w.faults[FA_DROPW] += 1;
                 let h = w.wakers.remove(k);
                 w.log(0x53, h.child as u64);
@@ -1365,7 +1375,7 @@ impl<'a> Runner<'a> {
             if w.owed.is_empty() {
                 None
             } else {
-                let k = sel as usize % w.owed.len();
+                let k = pick(sel, w.owed.len());
                 Some(w.owed.remove(k))
             }
         });
@@ -1778,7 +1788,7 @@ impl<'a> Runner<'a> {
                 if c.is_empty() {
                     return;
                 }
-                let id = c[*sel as usize % c.len()];
+                let id = c[pick(*sel, c.len())];
                 with(|w| {
                     w.children[id as usize].ready = true;
                     w.log(0x58, id as u64);
@@ -1795,7 +1805,7 @@ impl<'a> Runner<'a> {
                 if c.is_empty() {
                     return;
                 }
-                let id = c[*sel as usize % c.len()];
+                let id = c[pick(*sel, c.len())];
                 with(|w| {
                     let ch = &mut w.children[id as usize];
                     if ch.avail != INF {
@@ -1815,7 +1825,7 @@ impl<'a> Runner<'a> {
                 if c.is_empty() {
                     return;
                 }
-                let id = c[*sel as usize % c.len()];
+                let id = c[pick(*sel, c.len())];
                 with(|w| {
                     let ch = &mut w.children[id as usize];
                     ch.closed = true;
